@@ -116,7 +116,7 @@ def selector_facts(run, f):
     facts = []
     loops = [n for n in walk_local(f.node) if isinstance(n, ast.For) and dotted(n.iter) == "eols"]
     if not loops:
-        facts.append(("selector:present", False, run.site(f), "no loop over the admitted terminators found"))
+        run.inconclusive_at("terminator-selection", run.site(f), "no loop over the admitted terminators found: selection idiom not recognised")
         return facts
     loop = loops[0]
     finds = set()
@@ -256,7 +256,7 @@ def hex_guard_facts(run, f):
         if isinstance(n, ast.Call) and dotted(n.func) == "int" and len(n.args) == 2 and getattr(n.args[1], "value", None) == 16:
             conv.append(n)
     if not conv:
-        facts.append(("hexsize:conversion-present", False, run.site(f), "no int(x, 16) conversion of the chunk size found"))
+        run.inconclusive_at("C17.R1", run.site(f), "no int(x, 16) conversion of the chunk size found: conversion idiom not recognised")
         return facts, None
     call = conv[0]
     # the variable converted (strip/decode wrappers removed)
